@@ -1,5 +1,6 @@
 CONSTANTS
   AsFound = TRUE
+  InPlace = FALSE
   MdLen = 1
 INIT Init
 NEXT Next
